@@ -210,6 +210,35 @@ def tweak_decl(rng, cls, vg):
                 defaults.append([n, v])
     if defaults:
         cls["defaults"] = defaults
+    # Optional[X] in ELEMENT position (array / tuple / set item, map value, positional item): a None element is
+    # serialized as null, and the element schema is {"anyOf": [X, {"type": "null"}]} since /repo 431f094
+    def opt(d):
+        k = d.get("k")
+        def wrap(x):
+            return {"k": "anyOf", "fields": [x, {"k": "noneF"}]}
+        def wrappable(x):
+            return isinstance(x, dict) and x.get("k") not in ("anyOf", "noneF", "anything", "oneOf", "allOf", "notF")
+        if k in ("seqOf", "tupleOf", "setOf") and wrappable(d.get("item")) and rng.random() < 0.12:
+            if not (k == "setOf" and d["item"].get("k") not in ("integer", "string", "number", "float", "boolean", "enumCls")):
+                d["item"] = wrap(d["item"])
+        elif k == "mapOf" and wrappable(d.get("val")) and rng.random() < 0.12:
+            d["val"] = wrap(d["val"])
+        elif k in ("seqPos", "tuplePos") and d.get("items") and rng.random() < 0.12:
+            i = rng.randrange(len(d["items"]))
+            if wrappable(d["items"][i]):
+                d["items"][i] = wrap(d["items"][i])
+    def walk_own(d):
+        # not into nested Structure classes: one class can be referenced twice (copies of one declaration)
+        if isinstance(d, dict):
+            if d.get("k") == "struct" and not d.get("inline"):
+                return
+            opt(d)
+            for v in list(d.values()):
+                walk_own(v)
+        elif isinstance(d, list):
+            for x in d:
+                walk_own(x)
+    walk_own(cls["fields"])
     return cls
 
 
@@ -1038,12 +1067,34 @@ def inexact_features(d, acc):
     return acc
 
 
-def _node_at(inst, path):
-    """the instance node a document path leads to (None when the path cannot be followed, e.g. renamed keys)"""
+def _norm_key(k):
+    return str(k).replace("_", "").lower()
+
+
+def _rename_pairs(m, acc):
+    """every (name, key) pair a dict mapper (with its `._mapper` entries) writes"""
+    if isinstance(m, dict):
+        if "style" in m:                       # the case's wrapper {"style": ..., "d": {...}}; a converter has no "d"
+            m = m.get("d") if isinstance(m.get("d"), dict) else {}
+        for k, v in m.items():
+            if isinstance(v, str):
+                acc.add((k, v))
+            elif isinstance(v, dict):
+                _rename_pairs(v, acc)
+    return acc
+
+
+def _key_is(p, k, renames=()):
+    """document key `p` can be attribute `k`: unchanged, case-converted (camelCase / UPPER), or renamed by a mapper"""
+    return p == k or _norm_key(p) == _norm_key(k) or (k, p) in renames
+
+
+def _node_at(inst, path, renames=()):
+    """the instance node a document path leads to (None when the path cannot be followed)"""
     node = inst
     for p in path:
         if isinstance(node, dict) and "o" in node:
-            nxt = [v for k, v in node["o"][1] if k == p]
+            nxt = [v for k, v in node["o"][1] if k == p] or [v for k, v in node["o"][1] if _key_is(p, k, renames)]
             if not nxt:
                 return None
             node = nxt[0]
@@ -1078,17 +1129,19 @@ def _set_attr_names(inst, acc):
     return acc
 
 
-def holds_value(inst, path, name, renamed=False, wrapper=False):
+def holds_value(inst, path, name, renamed=False, wrapper=False, renames=()):
     """does the instance hold a non-None value for the attribute the schema reports as missing?
     (then the missing member is not the `None is dropped` phenomenon)"""
     if inst is None or name is None:
         return False
     if wrapper and isinstance(inst, dict) and "o" in inst and len(inst["o"][1]) == 1:
         inst = inst["o"][1][0][1]          # compact serialization: the document is the only field's value
-    node = _node_at(inst, path)
+    node = _node_at(inst, path, renames if renamed else ())
     if isinstance(node, dict) and "o" in node:
-        return any(k == name and v is not None for k, v in node["o"][1])
-    # keys renamed by a mapper: the path cannot be followed, look for the attribute anywhere
+        return any((k == name or (renamed and _key_is(name, k, renames))) and v is not None for k, v in node["o"][1])
+    if node is not None:
+        return False
+    # keys renamed by a mapper in a way the path cannot be followed with: look for the attribute anywhere
     return renamed and name in _set_attr_names(inst, set())
 
 
@@ -1270,7 +1323,10 @@ def admit_key(err, cls=None, inst=None, mapper=None, mixin=False, renamed=False,
         m = re.match(r"'(.*)' is a required property", err["msg"])
         wrapper = cls is not None and len(cls["fields"]) == 1 and set(cls["required"]) == {cls["fields"][0][0]} \
             and cls.get("addl", True) is False
-        if m and holds_value(inst, err.get("path") or [], m.group(1), bool(mapper) or renamed, wrapper):
+        renames = _rename_pairs(mapper or {}, set())
+        for om in (own or {}).values():
+            _rename_pairs(om, renames)
+        if m and holds_value(inst, err.get("path") or [], m.group(1), bool(mapper) or renamed, wrapper, renames):
             return "required-member-missing-although-set"
     if err.get("branches"):
         keys = {admit_key(b) for b in err["branches"]}
